@@ -5,7 +5,7 @@
     instance on every run. *)
 From Coq Require Import NArith ZArith QArith Qabs List Bool.
 From SV Require Import Bin.Struct Fmt.DmxCodes Fmt.DmxCodesProofs Fmt.DmxBin Fmt.DmxBinProofs Fmt.DmxKv1 Fmt.DmxKv1Proofs
-  Fmt.DmxScalar Fmt.DmxScalarProofs Fmt.DmxTyped Fmt.DmxTypedProofs Text.Str Text.Escape Text.Tokenizer Text.TokGen Fmt.DmxKv2 Fmt.DmxKv2Proofs Fmt.DmxKv2Nested Fmt.DmxKv2NestedProofs Fmt.DmxKv2Inst Num.Dec6 Fmt.DmxValText Fmt.DmxValTextProofs Fmt.DmxHeader Fmt.DmxHeaderProofs Fmt.DmxMembers Fmt.DmxMembersProofs Fmt.DmxKv1Sel Fmt.DmxKv1SelProofs Gen.DmxCodes_gen.
+  Fmt.DmxScalar Fmt.DmxScalarProofs Fmt.DmxTyped Fmt.DmxTypedProofs Text.Str Text.Escape Text.Tokenizer Text.TokGen Fmt.DmxKv2 Fmt.DmxKv2Proofs Fmt.DmxKv2Nested Fmt.DmxKv2NestedProofs Fmt.DmxKv2Inst Num.Dec6 Fmt.DmxValText Fmt.DmxValTextProofs Fmt.DmxHeader Fmt.DmxHeaderProofs Fmt.DmxMembers Fmt.DmxMembersProofs Fmt.DmxMembersParse Fmt.DmxMembersParseProofs Fmt.DmxKv1Sel Fmt.DmxKv1SelProofs Gen.DmxCodes_gen.
 Import ListNotations.
 
 (** The premises of the theorems below, for the configuration generated from today's source.  The check proves
@@ -406,6 +406,65 @@ Theorem attr_loop_on_real_name_refuted :
   (let m := run_ops ascii_lower [OSet [78; 65; 77; 69]%N (VStr (Scalar [120]%N))] (init_members [110]%N) in
    map fst m = [s_name] /\ count_written real_name_cnt m = 0%Z /\ length (records (cc_write_filter real_name_cnt) m) = 1%nat).
 Proof. exact write_filter_on_real_name_refuted. Qed.
+
+(** * The dict the readers build (round 3)
+
+    [Element(name, type, uuid)] starts with the member keyed "name"; parse_bin and _parse_kv2_element store every record
+    read by [elem._members[KEY] = Attribute(attr_name, ...)].  The mapping API looks [name.casefold()] up, so KEY must be
+    the casefolded name; which expression KEY is at each of the three sites is read from the source ([parsecfg]). *)
+
+(** Built from a document element whose folded attribute names are pairwise distinct and not "name": the name member,
+    then one member per record under its casefolded name, in order. *)
+Theorem reader_dict_shape : forall fold e, elem_names_ok fold e ->
+  parsed_members fold KFolded e =
+  (s_name, {| aname := s_name; adata := VStr (Scalar (ename e)) |}) :: map (fun a => (fold (aname a), a)) (eattrs e).
+Proof. exact parsed_members_shape. Qed.
+
+(** It is keyed by the casefolded names (the invariant [elem[name]], [in], [del] rely on), keys pairwise distinct, ... *)
+Theorem reader_dict_keyed_by_casefolded_names : forall fold e, fold s_name = s_name -> elem_names_ok fold e ->
+  keyed_by_fold fold (parsed_members fold KFolded e) /\ keys_nodup (parsed_members fold KFolded e).
+Proof. exact parsed_members_keyed. Qed.
+
+(** ... [elem[a.name]] finds every attribute [a] that was read, ... *)
+Theorem reader_dict_lookup_finds_every_attribute : forall fold e a, elem_names_ok fold e -> In a (eattrs e) ->
+  lookup fold (parsed_members fold KFolded e) (aname a) = Some a.
+Proof. exact parsed_lookup. Qed.
+
+(** ... and the element denotes the document element it was built from (name, attributes in order). *)
+Theorem reader_dict_denotes_the_document_element : forall fold cc e, name_getter_ok cc = true -> elem_names_ok fold e ->
+  abstract cc (parsed_relem fold KFolded e) = e.
+Proof. exact parsed_abstract. Qed.
+
+(** Every operation of the mapping API keeps the dict keyed by the casefolded names ([fold "name" = "name"]: a run-time
+    obligation for str.casefold); hence so does every history on a fresh element. *)
+Theorem element_api_keeps_dict_keyed : forall fold m op, fold s_name = s_name -> keyed_by_fold fold m -> keyed_by_fold fold (apply_op fold m op).
+Proof. exact apply_op_keyed. Qed.
+Theorem element_api_history_dict_keyed : forall fold ops name, fold s_name = s_name -> keyed_by_fold fold (run_ops fold ops (init_members name)).
+Proof. exact history_keyed. Qed.
+
+(** Composition (binary, versions 0-5): export the real dicts, parse the bytes, build the dicts — each is the canonical
+    form of the dict exported: the name member (or "" if it was missing) first, every other member under its key, in order. *)
+Theorem dmx_bin_members_reader_roundtrip :
+  forall (cenc : enc -> str -> bytes) (cdec : enc -> bytes -> option str) (cfg : dmxcfg) (cc : cntcfg) (fold : str -> str),
+  cnt_cfg_ok cc = true -> bin_cfg_ok cfg = true ->
+  forall v rd, Forall (fun r => keys_nodup (r_members r)) rd -> Forall (fun r => keyed_by_fold fold (r_members r)) rd ->
+    expressible cenc cdec cfg v (map (abstract cc) rd) ->
+    exists d, parse_bin cdec cfg v (export_raw cenc cfg cc v rd) = Some d /\
+              map (parsed_members fold KFolded) d = map (fun r => canonical cc (r_members r)) rd.
+Proof. exact members_bin_reader_roundtrip. Qed.
+
+(** A reader that stores a record under the name as written fails [parse_keys_ok]: the attribute "Ab" is in the dict
+    but [elem["Ab"]] does not find it; with the casefolded key both "Ab" and "aB" find it. *)
+Theorem reader_key_as_written_refuted :
+  parse_keys_ok {| pk_bin := KAsWritten; pk_kv2_attr := KFolded; pk_kv2_inline := KFolded; pk_init_key := s_name; pk_init_name := s_name |} = false /\
+  lookup ascii_lower (parsed_members ascii_lower KAsWritten ab_elem) [65; 98]%N = None /\
+  keyed_by_foldb ascii_lower (parsed_members ascii_lower KAsWritten ab_elem) = false /\
+  lookup ascii_lower (parsed_members ascii_lower KFolded ab_elem) [65; 98]%N = Some (int_attr [65; 98]%N 5) /\
+  lookup ascii_lower (parsed_members ascii_lower KFolded ab_elem) [97; 66]%N = Some (int_attr [65; 98]%N 5) /\
+  keyed_by_foldb ascii_lower (parsed_members ascii_lower KFolded ab_elem) = true.
+Proof. exact key_as_written_refuted. Qed.
+Theorem reader_dict_premises_satisfiable : parse_keys_ok good_parse && init_member_ok good_parse = true /\ elem_names_ok ascii_lower ab_elem.
+Proof. split; [exact good_parse_ok | exact names_ok_example]. Qed.
 
 (** * from_kv1: which name of a leaf its two tests read (round 3)
 
